@@ -16,7 +16,9 @@ EDITORS = ["update_base_search", "clear_search", "update_unencoded_base_hash", "
            # clear_pathname and the pathname setter on top of it (Model/AggPath.lean, Props/C03.aggregator_set_pathname_end_to_end)
            "clear_pathname", "set_pathname", "set_pathname",
            # the host setters (Model/AggHostSetter.lean; the model's IDNA parameter is answered by the real to_ascii)
-           "set_host", "set_hostname"]
+           "set_host", "set_hostname",
+           # set_href = the aggregator's own parser (Model/ParseAgg.lean) + size checks + take-over
+           "set_href"]
 
 # the raw scheme editors leave `type` stale (parse_scheme_with_colon updates it itself); the setter-level operations that read
 # `type` (default port, special-ness of the current scheme) are therefore not compared after one of them
@@ -61,6 +63,12 @@ def gen_arg(rng, ed):
                                b"a b", b"a@b", b"h:443", b"h:80", b"h:0", b"x" * 30, b"%", b"[a/b]", b"h:1#2"])
         h = genlib.gen_host(rng)
         return h + (genlib.gen_port(rng) if rng.random() < 0.4 else b"") + rng.choice([b"", b"", b"/p", b"?q", b"#f", b"\\x"])
+    if ed == "set_href":
+        r = rng.random()
+        if r < 0.4:
+            return rng.choice([b"", b"x", b"http://h2/p?q#f", b"HTTPS://U:P@H:443/a/../b", b"file:///C|/x", b"foo://h:1/p", b"foo:opaque ?q", b"http://",
+                               b"ws://a b/", b"http://[::1]:80/", b"http://u@v@h/", b"foo:/.//x", b" http://h/ ", b"ht\ttp://h", b"http:\\\\h\\p", b"//h"])
+        return genlib.gen_absolute(rng)
     if ed == "set_port":
         return rng.choice([b"", b"0", b"80", b"443", b"21", b"8080", b"65535", b"65536", b"99999999999", b"8a", b"a8", b" 81", b"8\t1",
                            b"0080", b"00000000000000000443", b"-1", b"+1", b"1:2", b"1/", str(rng.randrange(70000)).encode()])
